@@ -30,7 +30,8 @@ type c01pkt struct {
 	Compress bool
 	Payload  []byte
 	Cmd      *packet.CommandPacket
-	encLen   int // encoded length on the wire (measured from the writer)
+	Rate     int64 // rateLimitBytesPerSecond handed to WritePacket (0 = unlimited path)
+	encLen   int   // encoded length on the wire (measured from the writer)
 }
 
 var c01BaseTypes = []packet.Type{
@@ -72,6 +73,10 @@ func c01GenPacket(r *rand.Rand, big bool) c01pkt {
 	}
 	p.Type = byte(t)
 	p.Compress = r.Intn(3) == 0
+	if r.Intn(4) == 0 {
+		// the rate-limited write path of WritePacket (a high rate: no real waiting)
+		p.Rate = int64(64<<20) << uint(r.Intn(3))
+	}
 	if r.Intn(25) == 0 {
 		p.Type |= byte(packet.Encrypted)
 	}
@@ -106,7 +111,7 @@ func c01Encode(seq []c01pkt) ([]byte, error) {
 	for i := range seq {
 		before := buf.Len()
 		tp := &packet.TransferPacket{PacketType: packet.Type(seq[i].Type), Payload: seq[i].Payload, CommandPacket: seq[i].Cmd}
-		n, err := sp.WritePacket(tp, seq[i].Compress, 0)
+		n, err := sp.WritePacket(tp, seq[i].Compress, seq[i].Rate)
 		if err != nil {
 			return nil, fmt.Errorf("writer refused packet %d: %w", i, err)
 		}
@@ -123,7 +128,7 @@ type c01Source interface {
 func c01Describe(seq []c01pkt) []map[string]any {
 	var out []map[string]any
 	for _, p := range seq {
-		m := map[string]any{"type": fmt.Sprintf("0x%02x", p.Type), "compress": p.Compress, "payload_len": len(p.Payload), "enc_len": p.encLen}
+		m := map[string]any{"type": fmt.Sprintf("0x%02x", p.Type), "compress": p.Compress, "payload_len": len(p.Payload), "enc_len": p.encLen, "rate": p.Rate}
 		if p.Cmd != nil {
 			m["cmd_body_len"] = len(p.Cmd.CommandBody)
 		}
@@ -287,7 +292,10 @@ func TestVerifC01Chunking(t *testing.T) {
 				run.Count("decoded_ok_runs", 1)
 			}
 			for _, p := range seq {
-				run.Distinct(fmt.Sprintf("%s|%v|%s|%s", c01TypeName(packet.Type(p.Type)), p.Compress, c01LenBucket(len(p.Payload)), class))
+				run.Distinct(fmt.Sprintf("%s|%v|%s|%s|rl=%v", c01TypeName(packet.Type(p.Type)), p.Compress, c01LenBucket(len(p.Payload)), class, p.Rate > 0))
+				if p.Rate > 0 && len(p.Payload) > 1024 {
+					run.Count("rate_limited_big_bodies", 1)
+				}
 			}
 		}
 		if s < 3 {
@@ -338,6 +346,7 @@ func TestVerifC01Chunking(t *testing.T) {
 	}
 	run.Floor("decoded_ok_runs", 1)
 	run.Floor("cuts_in_header", 100)
+	run.Floor("rate_limited_big_bodies", 50)
 }
 
 // TestVerifC01MaxBody covers the top of the size range once per run.
@@ -476,6 +485,9 @@ func TestVerifC01SizeSweep(t *testing.T) {
 				continue
 			}
 			seq := []c01pkt{{Type: byte(packet.TunnelData), Compress: comp, Payload: vk.Pattern(uint64(n), 0, n)}, {Type: byte(packet.TunnelClose), Payload: []byte("sentinel")}}
+			if n%3 == 1 {
+				seq[0].Rate = 256 << 20 // rate-limited write path for a third of the sizes
+			}
 			run.Case(fmt.Sprintf("sweep|n=%d|comp=%v", n, comp), nil)
 			wire, err := c01Encode(seq)
 			if err != nil {
